@@ -205,6 +205,14 @@ def run(ctx):
             gg = paths.guarded(g, d_, lambda fn, cc, pol: paths.rel(fn, cc, pol, subst=False) in (("1", "==", cnt), (cnt, "==", "1")))
             ctx.check(l4, gg, key(g, "single-candidate"), g.where(d_), "first element of the candidate list is taken without knowing the list has exactly one element")
         ctx.check(l4, len(derefs) == 1, key(g, "deref-sites"), g.where(g.root), "expected one direct use of the candidate list head (found %d)" % len(derefs))
+    # fallback end node: the word instance with the latest last-exit frame that has entries
+    g = fns["find_end_node"]
+    ls = [s for s in paths.stores(g) if s["path"] == "last" and s["rhs"] is not None and g.canon(s["rhs"], subst=False) == "node"]
+    es = [s for s in paths.stores(g) if s["path"] == "ef" and s["rhs"] is not None and not paths.is_const(g, s["rhs"])]
+    ok = len(ls) == 1 and len(es) == 1 and g.canon(es[0]["rhs"], subst=False) == "node->lef" and paths.same_block(g, ls[0]["node"], es[0]["node"])
+    if ok:
+        ok = paths.guarded(g, ls[0]["node"], lambda fn, cc, pol: paths.rel(fn, cc, pol, subst=False) == ("ef", "<", "node->lef")) and paths.guarded(g, ls[0]["node"], lambda fn, cc, pol: paths.cond_atoms(fn, cc, pol, subst=False) == ("node->entries", True)) and paths.guarded(g, ls[0]["node"], lambda fn, cc, pol: paths.rel(fn, cc, pol, subst=False) in (("0", "==", "nend"), ("nend", "==", "0")))
+    ctx.check(l4, ok, key(g, "fallback-end"), g.where(g.root), "without a candidate in the last frame the end node must be the node with entries whose *last* exit frame is latest (max-merge on node->lef, co-updating the node): another choice ends the lattice before the first-best path does")
     # order in fsg_search_lattice: start, end, wid conversion, reachability
     seq_names = ["find_start_node", "find_end_node", "mark_reachable", "lattice_delete_unreachable"]
     seq = [f.calls(n_) for n_ in seq_names]
